@@ -53,7 +53,8 @@ def signature_matches(finding, violation):
     sig = finding.get("signature", {})
     kind = sig.get("kind")
     if kind == "what-prefix":
-        return violation["what"].startswith(sig["prefix"]) and all(
+        prefixes = sig.get("prefixes") or [sig["prefix"]]
+        return any(violation["what"].startswith(p) for p in prefixes) and all(
             re.search(p, json.dumps(violation, ensure_ascii=False)) for p in sig.get("require", []))
     return False
 
@@ -114,7 +115,17 @@ def prune(toks, atomic):
     return [[t[0], t[1], t[2], [] if t[0] in atomic else prune(t[3], atomic)] for t in toks]
 
 
+_FWS_CACHE = {}
+
+
 def fws_grammar(ginfo):
+    key = ginfo.get("sexp", "")[:80] + str(len(ginfo.get("sexp", "")))
+    if key not in _FWS_CACHE:
+        _FWS_CACHE[key] = _fws_grammar(ginfo)
+    return _FWS_CACHE[key]
+
+
+def _fws_grammar(ginfo):
     """F-WS root cause: a WHITESPACE/COMMENT rule that is not declared @/$ and whose body contains
     a sequence, a repetition or a rule reference (pest forces such bodies atomic, pest-typed does not)."""
     import corpus
@@ -559,6 +570,9 @@ CHECKS = {
     "C12": _lazy("text", "check_C12"),
     "C13": _lazy("text", "check_C13"),
     "C14": _lazy("text", "check_C14"),
+    "C11": _lazy("c11", "check_C11"),
+    "C16": _lazy("c16", "check_C16"),
+    "C20": _lazy("c20", "check_C20"),
     "C15": _lazy("acc", "check_C15"),
     "C17": _lazy("acc", "check_C17"),
     "C18": _lazy("acc", "check_C18"),
